@@ -104,7 +104,15 @@ pub fn run_mode(case: &ACase, counts_only: bool) -> Option<String> {
     // every call of a sequence over a well-formed plan returns: the harness systems never panic themselves and borrow nothing
     match catch_unwind(AssertUnwindSafe(|| run_inner(case, counts_only))) {
         Ok(r) => r,
-        Err(p) => Some(format!("async dispatcher: a call of the sequence panicked instead of returning: {}", crate::real::panic_msg(p))),
+        Err(p) => {
+            let m = crate::real::panic_msg(p);
+            if m.contains("armed panic of harness system") {
+                // the armed system is a thread-local one; only wait() runs those, and the harness catches that wait()
+                Some(format!("async dispatcher: a thread-local system was run by a call other than wait() (it was armed to panic inside its next run, and the panic came out of that call): {}", m))
+            } else {
+                Some(format!("async dispatcher: a call of the sequence panicked instead of returning: {}", m))
+            }
+        }
     }
 }
 
